@@ -453,6 +453,50 @@ def run_check(pid, tier, replay=None):
             rp = C.write_replay(pid, sc, replay_obj(pid, sc, events, vs))
             violations.append(("%s in scenario %s at event %s" % (",".join(sorted({v["p"] for v in vs})), sc, min(v["seq"] for v in vs)), rp))
         inductive = mc.apalache_inductive(scratch) if pid in ("C04", "C05") else None
+        delay_run = None
+        if pid == "C09":
+            # the Delay x Suppress machine as a sequential model (Delay.tla), every history up to MaxOps, for a config type with
+            # and one without a Verify method, executed against the real library
+            from .wrapcheck import run_cases
+            dd = scratch.sub("delay")
+            C.copy_specs(dd, ["Delay.tla"])
+
+            def dcfg(bug, emit):
+                lines = ["SPECIFICATION Spec", "CONSTANTS", "  MaxOps = %d" % (4 if quick else 6),
+                         "  BUG_NoDelayWithoutVerify = %s" % ("TRUE" if bug else "FALSE"),
+                         "INVARIANTS WithheldOnlyWhile DeliveredAfterEnable IndependentOfVerifiable", "CHECK_DEADLOCK FALSE"]
+                if emit:
+                    lines.append("CONSTRAINT Emit")
+                open(os.path.join(dd, "D.cfg"), "w").write("\n".join(lines) + "\n")
+            dcfg(False, True)
+            dres = C.run_tlc(dd, "Delay", "D.cfg", workers=1, timeout=900)
+            if not dres.ok:
+                raise C.Inconclusive("Delay.tla violates its own properties (%s): specification alarm" % dres.violated)
+            dcases = []
+            for line in dres.out.splitlines():
+                if line.startswith('<<"CASE"'):
+                    js = line[line.index(",") + 1:].strip()
+                    dcases.append(json.loads(json.loads(js[:js.rindex(">>")].strip())))
+            dcases = [c for c in dcases if len(c["hist"]) >= 2 or not quick]
+            for i, c in enumerate(dcases):
+                c["id"] = "d%d" % i
+            dcfg(True, False)
+            if not C.run_tlc(dd, "Delay", "D.cfg", workers=2, timeout=300).violated:
+                raise C.Inconclusive("self-test: Delay.tla's seeded mistake no longer violates anything")
+            dresults, dcrashes = run_cases(vh, scratch, dcases, workers=12, subcmd="delay")
+            dby = {c["id"]: c for c in dcases}
+            nbad = 0
+            for cid, first, stderr in dcrashes:
+                rp = C.write_replay(pid, cid, {"property": pid, "kind": "delay", "case": dby.get(cid), "crash": stderr[-1500:]})
+                violations.append(("process crashed in Delay history %s: %s" % (cid, first), rp))
+            for r in dresults:
+                ms = r.get("mismatches") or []
+                if ms:
+                    nbad += 1
+                    if nbad <= 10:
+                        rp = C.write_replay(pid, r["id"], {"property": pid, "kind": "delay", "case": dby.get(r["id"]), "mismatches": ms})
+                        violations.append(("Delay history %s: %s" % (r["id"], ms[0]["detail"][:220]), rp))
+            delay_run = {"histories": len(dcases), "distinct_states": dres.distinct, "mismatching": nbad, "seeded_mistake_breaks_model": True}
         blank_ctx = None
         if pid == "C07":
             # "... and therefore Blank.SetSource": the Blank histories of Wrap.tla with the monitor gone, under a watchdog
@@ -489,7 +533,7 @@ def run_check(pid, tier, replay=None):
                     "; distinct = different (scenario, executed schedule) pairs",
             "model": {"config": mc.consts_for(pid, tier), "distinct_states": mcres.distinct, "generated_states": mcres.generated,
                       "depth": mcres.depth, "invariants": mc.INVARIANTS, "action_properties": mc.ACTION_PROPS, "wall_s": round(mcres.wall, 1)},
-            "toggle_selftest": selftest, "binding_selftest": binding, "unbounded_inductive_invariant": inductive, "blank_set_source_context": blank_ctx,
+            "toggle_selftest": selftest, "binding_selftest": binding, "delay_machine": delay_run, "unbounded_inductive_invariant": inductive, "blank_set_source_context": blank_ctx,
             "spec_behaviours_replayed": len(behaviours), "plan_steps_not_enabled_in_code": plan_skips,
             "observer": {"events": len(events), "tlc_states": obs_states, "breaches_total": len(viol), "other_property_tags_seen": others},
             "strict_conformance": {"traces": len(conf), "by_status": status,
@@ -510,6 +554,14 @@ def run_check(pid, tier, replay=None):
 
 def run_replay(pid, vh, scratch, path):
     obj = json.load(open(path))
+    if obj.get("kind") == "delay":
+        from . import wrapcheck
+        res, crashes = wrapcheck.run_cases(vh, scratch, [obj["case"]], workers=1, subcmd="delay")
+        bad = crashes or [m for r in res for m in (r.get("mismatches") or [])]
+        print("replay:", "reproduced" if bad else "not reproduced")
+        if bad:
+            print("VIOLATION property=%s replay=%s  (reproduced)" % (pid, path))
+        return 1 if bad else 0
     if obj.get("kind") == "wrap":
         from . import wrapcheck
         res, crashes = wrapcheck.run_cases(vh, scratch, [obj["case"]], workers=1)
